@@ -296,6 +296,7 @@ func loadFindings() []finding {
 
 // Finish classifies, writes evidence and witness files, prints the verdict lines and exits.
 func (r *Run) Finish() {
+	r.deadlockBehindInconclusive()
 	r.mu.Lock()
 	defer r.mu.Unlock()
 	known := map[string]finding{}
